@@ -57,9 +57,9 @@ def oracle_run(args):
     spec = dict(args)
     rng = np.random.Generator(np.random.PCG64(spec["model_seed"]))
     if spec.get("builtin"):
-        model = mudslide.models.scattering_models[spec["builtin"]]()
+        model = mudslide.models.scattering_models[spec["builtin"]](**spec.get("kwargs", {}))
         N, n = model.nstates(), model.ndim()
-        x0, p0 = np.array(spec["x0"]), np.array(spec["p0"])
+        x0, p0 = np.array(spec["x0"], dtype=np.float64), np.array(spec["p0"], dtype=np.float64)
     else:
         N, n = spec["N"], spec["n"]
         model = SynthModel(rng, N, n, scale=0.1, gap=0.0, mass=10 ** rng.uniform(0, 1.5, size=n))
@@ -110,6 +110,9 @@ def oracle_run(args):
     defect, defect_at = 0.0, None
     for s in tr:
         rho = s["density_matrix"]
+        if not np.all(np.isfinite(rho)):
+            problems.append("t=%r: the density matrix is not finite (NaN/inf entries)" % (s["time"],))
+            break
         herm = float(np.max(np.abs(rho - rho.conj().T)))
         size = max(1.0, float(np.max(np.abs(rho))))       # (an unstable RK4 run grows: the exact invariants are judged relative to |rho|)
         if herm > 1e-9 * size or abs(np.trace(rho) - 1) > 1e-9 * size:
@@ -343,6 +346,26 @@ def run(ctx):
         if not ok:
             ctx.oracle_fail("adiabatic-model-coupling-diagonal" if "Hermiticity" in text else "invalid-state-in-run:shin-metiu",
                             "run", spec, obs, req, text)
+    # more kept states than the default three (the couplings of an AdiabaticModel_ beyond 3 states), coherent start, both integrators;
+    # and a run started exactly ON a degeneracy (conical intersection of the linear vibronic model with E1 == E2)
+    for i in range(ctx.budget(4, 16)):
+        if i % 2 == 0:
+            spec = dict(cls=["TrajectorySH", "Ehrenfest"][(i // 2) % 2], builtin="shin-metiu", kwargs={"nstates": int(rng.integers(4, 7)), "nel": 32},
+                        x0=[float(rng.uniform(-4, 4))], p0=[float(rng.uniform(10, 20))], model_seed=int(rng.integers(1, 10 ** 6)), seed=3, dt=4.0,
+                        steps=int(ctx.budget(8, 25)), integ=["linear-rk4", "exp"][(i // 4) % 2], rho="pure")
+        else:
+            p_ = [0.0, 0.0, 0.0, 0.0, float(rng.choice([-1.0, 1.0]) * 10 ** rng.uniform(-3, 0))]
+            spec = dict(cls=["TrajectorySH", "Ehrenfest", "TrajectoryCum"][(i // 2) % 3], builtin="vibronic", kwargs={"E1": 9.0, "E2": 9.0},
+                        x0=[0.0] * 5, p0=p_, model_seed=int(rng.integers(1, 10 ** 6)), seed=3, dt=float(rng.choice([0.5, 2.0])),
+                        steps=int(ctx.budget(10, 30)), integ="exp", rho="pure")
+            # (exponential integrator only: ON the intersection the regularised coupling is ~5e8, far beyond the stability bound of
+            # the RK4 scheme whatever the sub-step - the listed finding rk4-not-unitary in its most extreme form, not judged again)
+        ok, obs, req, text = oracle_run(spec)
+        ctx.case(("run", spec["builtin"], spec["integ"], spec["cls"]))
+        ctx.count("run:%s:%s" % (spec["builtin"], spec["integ"]))
+        if not ok:
+            sig = "rk4-not-unitary" if obs.get("only_rk4_truncation") else "invalid-state-in-run:%s:%s" % (spec["builtin"], spec["integ"])
+            ctx.oracle_fail(sig, "run", spec, obs, req, text)
     # stop / restart from the log / continue, with mixed and pure initial states
     for i in range(ctx.budget(6, 80)):
         K = int(rng.integers(6, 14))
